@@ -1,1 +1,351 @@
-/- C13: property theorems (not built yet). -/
+/-
+  C13 — Array (CSE) formulas: pointwise lifting and exact target shape.
+
+  Statement (properties.jsonl):
+    (S1) "An operator applied to arrays (with scalar, single-row or single-column broadcasting)
+    (S2)  and an array-aware function applied to equally shaped arrays and scalars
+          yield at every position the value of the scalar application to the elements at that position.
+    (S3)  An array formula entered over a target range produces exactly the target's shape -
+    (S4)  larger results are trimmed, a scalar/single row/single column is repeated, uncovered positions are #N/A -
+    (S5)  and each member cell shows its own element."
+
+  Model: Pycel/Model/Arrays.lean (`opFixup`/`arrayFixup`, `cseWrap`, `fitToRange`, `expandCse`/`cseRange`/
+  `memberValue`), lemmas in Pycel/Lemmas/Arrays.lean.  Every theorem is for ALL shapes (no 4×4 bound), all element
+  values, and every scalar operation `f : Val → Val → Val` / wrapped function `g : List Opnd → Val`.
+  Arrays are `List (List Val)`; `Rect a h w` says `a` is rectangular h×w; `at2 a i j` is `a[i][j]`;
+  `bidx n i` is the broadcast index (0 when the extent is 1, else i).
+-/
+import Pycel.Lemmas.Arrays
+import Pycel.Generated.CseMeta
+namespace Pycel.Arrays
+open Pycel
+
+/-! ## S1 — operators -/
+
+/-- **C13 (S1, general)**: for operands (scalars or rectangular arrays) whose shapes are broadcast-compatible in
+    numpy's sense (`bdim`: each dimension equal or one of them 1), the operator yields a rectangular result of the
+    broadcast shape whose element at EVERY position is the scalar operation applied to the operands' elements at that
+    position, an extent-1 dimension (scalar, single row, single column) being repeated. -/
+theorem C13_pointwise_op (f : Val → Val → Val) (l r : Opnd) {hl wl hr wr h w : Nat}
+    (hL : Rect (toArr l) hl wl) (hR : Rect (toArr r) hr wr) (hl0 : 0 < hl) (hr0 : 0 < hr)
+    (hh : bdim hl hr = some h) (hw : bdim wl wr = some w) :
+    ∃ res, opFixup f l r = some res ∧ Rect (toArr res) h w ∧
+      ∀ i j, i < h → j < w →
+        at2 (toArr res) i j
+          = f (at2 (toArr l) (bidx hl i) (bidx wl j)) (at2 (toArr r) (bidx hr i) (bidx wr j)) :=
+  opFixup_spec f l r hL hR hl0 hr0 hh hw
+
+/-- **C13 (S1, equal shapes)**: array ∘ array of the same shape is elementwise. -/
+theorem C13_op_same_shape (f : Val → Val → Val) (a b : Arr) {h w : Nat}
+    (ha : Rect a h w) (hb : Rect b h w) (h0 : 0 < h) :
+    ∃ res, opFixup f (.arr a) (.arr b) = some (.arr res) ∧ Rect res h w ∧
+      ∀ i j, i < h → j < w → at2 res i j = f (at2 a i j) (at2 b i j) := by
+  obtain ⟨res, h1, h2, h3⟩ := arrayFixup_spec f (.arr a) (.arr b) (hl := h) (wl := w) (hr := h) (wr := w)
+    (h := h) (w := w) ha hb h0 h0 (by simp [bdim]) (by simp [bdim])
+  refine ⟨res, by simp [opFixup, h1], h2, ?_⟩
+  intro i j hi hj
+  rw [h3 i j hi hj]
+  by_cases e1 : h = 1 <;> by_cases e2 : w = 1 <;> simp [bidx, e1, e2, toArr] <;>
+    first
+      | (have : i = 0 := by omega
+         have : j = 0 := by omega
+         simp_all)
+      | (have : i = 0 := by omega
+         simp_all)
+      | (have : j = 0 := by omega
+         simp_all)
+
+/-- **C13 (S1, scalar broadcasting, scalar on the left)**: `v ∘ array` applies `f v` to every element. -/
+theorem C13_op_scalar_left (f : Val → Val → Val) (v : Val) (b : Arr) {h w : Nat} (hb : Rect b h w) (h0 : 0 < h) :
+    ∃ res, opFixup f (.scalar v) (.arr b) = some (.arr res) ∧ Rect res h w ∧
+      ∀ i j, i < h → j < w → at2 res i j = f v (at2 b i j) := by
+  obtain ⟨res, h1, h2, h3⟩ := arrayFixup_spec f (.scalar v) (.arr b) (hl := 1) (wl := 1) (hr := h) (wr := w)
+    (h := h) (w := w) (scalar_rect v) hb (by omega) h0
+    (by unfold bdim; split <;> simp_all) (by unfold bdim; split <;> simp_all)
+  refine ⟨res, by simp [opFixup, h1], h2, ?_⟩
+  intro i j hi hj
+  rw [h3 i j hi hj]
+  have e : at2 (toArr (.scalar v)) (bidx 1 i) (bidx 1 j) = v := by simp [bidx, at2, toArr]
+  rw [e]
+  by_cases e1 : h = 1 <;> by_cases e2 : w = 1 <;> simp [bidx, e1, e2, toArr] <;>
+    first
+      | (have : i = 0 := by omega
+         have : j = 0 := by omega
+         simp_all)
+      | (have : i = 0 := by omega
+         simp_all)
+      | (have : j = 0 := by omega
+         simp_all)
+
+/-- **C13 (S1, scalar broadcasting, scalar on the right)**. -/
+theorem C13_op_scalar_right (f : Val → Val → Val) (a : Arr) (v : Val) {h w : Nat} (ha : Rect a h w) (h0 : 0 < h) :
+    ∃ res, opFixup f (.arr a) (.scalar v) = some (.arr res) ∧ Rect res h w ∧
+      ∀ i j, i < h → j < w → at2 res i j = f (at2 a i j) v := by
+  obtain ⟨res, h1, h2, h3⟩ := arrayFixup_spec f (.arr a) (.scalar v) (hl := h) (wl := w) (hr := 1) (wr := 1)
+    (h := h) (w := w) ha (scalar_rect v) h0 (by omega)
+    (by unfold bdim; split <;> simp_all) (by unfold bdim; split <;> simp_all)
+  refine ⟨res, by simp [opFixup, h1], h2, ?_⟩
+  intro i j hi hj
+  rw [h3 i j hi hj]
+  have e : at2 (toArr (.scalar v)) (bidx 1 i) (bidx 1 j) = v := by simp [bidx, at2, toArr]
+  rw [e]
+  by_cases e1 : h = 1 <;> by_cases e2 : w = 1 <;> simp [bidx, e1, e2, toArr] <;>
+    first
+      | (have : i = 0 := by omega
+         have : j = 0 := by omega
+         simp_all)
+      | (have : i = 0 := by omega
+         simp_all)
+      | (have : j = 0 := by omega
+         simp_all)
+
+/-- **C13 (S1, single-row broadcasting)**: a 1×w row against an h×w array is repeated down the rows. -/
+theorem C13_op_single_row (f : Val → Val → Val) (a row : Arr) {h w : Nat}
+    (ha : Rect a h w) (hrow : Rect row 1 w) (h0 : 0 < h) (h1 : h ≠ 1) :
+    ∃ res, opFixup f (.arr a) (.arr row) = some (.arr res) ∧ Rect res h w ∧
+      ∀ i j, i < h → j < w → at2 res i j = f (at2 a i (bidx w j)) (at2 row 0 (bidx w j)) := by
+  obtain ⟨res, e1, e2, e3⟩ := arrayFixup_spec f (.arr a) (.arr row) (hl := h) (wl := w) (hr := 1) (wr := w)
+    (h := h) (w := w) ha hrow h0 (by omega) (by simp [bdim, h1]) (by simp [bdim])
+  refine ⟨res, by simp [opFixup, e1], e2, ?_⟩
+  intro i j hi hj
+  rw [e3 i j hi hj]
+  simp [bidx, h1, toArr]
+
+/-- **C13 (S1, single-column broadcasting)**: an h×1 column against an h×w array is repeated across the columns. -/
+theorem C13_op_single_col (f : Val → Val → Val) (a col : Arr) {h w : Nat}
+    (ha : Rect a h w) (hcol : Rect col h 1) (h0 : 0 < h) (w1 : w ≠ 1) :
+    ∃ res, opFixup f (.arr a) (.arr col) = some (.arr res) ∧ Rect res h w ∧
+      ∀ i j, i < h → j < w → at2 res i j = f (at2 a (bidx h i) j) (at2 col (bidx h i) 0) := by
+  obtain ⟨res, e1, e2, e3⟩ := arrayFixup_spec f (.arr a) (.arr col) (hl := h) (wl := w) (hr := h) (wr := 1)
+    (h := h) (w := w) ha hcol h0 h0 (by simp [bdim]) (by simp [bdim, w1])
+  refine ⟨res, by simp [opFixup, e1], e2, ?_⟩
+  intro i j hi hj
+  rw [e3 i j hi hj]
+  simp [bidx, w1, toArr]
+
+/-- **C13 (S1, row against column)**: numpy also broadcasts a single row against a single column to the full
+    h×w table `f col[i] row[j]`. -/
+theorem C13_op_col_row (f : Val → Val → Val) (col row : Arr) {h w : Nat}
+    (hcol : Rect col h 1) (hrow : Rect row 1 w) (h0 : 0 < h) (h1 : h ≠ 1) (w1 : w ≠ 1) :
+    ∃ res, opFixup f (.arr col) (.arr row) = some (.arr res) ∧ Rect res h w ∧
+      ∀ i j, i < h → j < w → at2 res i j = f (at2 col i 0) (at2 row 0 j) := by
+  obtain ⟨res, e1, e2, e3⟩ := arrayFixup_spec f (.arr col) (.arr row) (hl := h) (wl := 1) (hr := 1) (wr := w)
+    (h := h) (w := w) hcol hrow h0 (by omega) (by simp [bdim, h1]) (by simp [bdim])
+  refine ⟨res, by simp [opFixup, e1], e2, ?_⟩
+  intro i j hi hj
+  rw [e3 i j hi hj]
+  simp [bidx, h1, w1, toArr]
+
+/-- Outside the statement, modelled explicitly: incompatible shapes make the operator raise (`none`). -/
+theorem C13_op_incompatible (f : Val → Val → Val) (a b : Arr) {hl wl hr wr : Nat}
+    (hL : Rect a hl wl) (hR : Rect b hr wr) (hl0 : 0 < hl) (hr0 : 0 < hr)
+    (hbad : bdim hl hr = none ∨ bdim wl wr = none) : opFixup f (.arr a) (.arr b) = none := by
+  simp [opFixup, arrayFixup_fail f (.arr a) (.arr b) hL hR hl0 hr0 hbad]
+
+/-! ## S2 — array-aware functions -/
+
+/-- **C13 (S2)**: a function wrapped by `cse_array_wrapper`, applied to arguments of which at least one declared
+    cse parameter holds an array and all arrays at declared cse positions have the same shape h×w (`CseShapes`),
+    the other arguments being scalars (or arrays at non-cse positions, passed through whole), yields an h×w array
+    whose element at every position is the function applied to the arguments with each such array replaced by its
+    element at that position (`pickTot`). -/
+theorem C13_pointwise_fn (g : List Opnd → Val) (cse : Nat → Bool) (args : List Opnd) {h w : Nat} {x : Arr}
+    (hf : firstCse cse 0 args = some x) (hs : CseShapes cse h w 0 args) (h0 : 0 < h) :
+    ∃ res, cseWrap g cse args = some (.arr res) ∧ Rect res h w ∧
+      ∀ i j, i < h → j < w → at2 res i j = g (pickTot cse 0 args i j) :=
+  cseWrap_spec g cse args hf hs h0
+
+/-- **C13 (S2, scalars only)**: without an array at a cse position the function is simply called once. -/
+theorem C13_fn_scalar (g : List Opnd → Val) (cse : Nat → Bool) (args : List Opnd)
+    (hf : firstCse cse 0 args = none) : cseWrap g cse args = some (.scalar (g args)) :=
+  cseWrap_scalar g cse args hf
+
+/-- S2 read for the common case "every parameter is a cse parameter, two arguments": element (i,j) of
+    `G(a, v)` is `g [a[i][j], v]`, of `G(a, b)` is `g [a[i][j], b[i][j]]`. -/
+theorem C13_fn_binary (g : List Opnd → Val) (a b : Arr) (v : Val) {h w : Nat}
+    (ha : Rect a h w) (hb : Rect b h w) (h0 : 0 < h) :
+    (∃ res, cseWrap g (fun _ => true) [.arr a, .scalar v] = some (.arr res) ∧ Rect res h w ∧
+      ∀ i j, i < h → j < w → at2 res i j = g [.scalar (at2 a i j), .scalar v]) ∧
+    (∃ res, cseWrap g (fun _ => true) [.arr a, .arr b] = some (.arr res) ∧ Rect res h w ∧
+      ∀ i j, i < h → j < w → at2 res i j = g [.scalar (at2 a i j), .scalar (at2 b i j)]) := by
+  constructor
+  · exact cseWrap_spec g _ [.arr a, .scalar v] (x := a) rfl (by simp [CseShapes, ha]) h0
+  · exact cseWrap_spec g _ [.arr a, .arr b] (x := a) rfl (by simp [CseShapes, ha, hb]) h0
+
+/-- Outside the statement ("equally shaped"), modelled explicitly: the shape is taken from the FIRST array
+    argument; a larger second array is silently truncated, a smaller one raises. -/
+theorem C13_fn_unequal_shapes_witness (g : List Opnd → Val) (u v w x : Val) :
+    cseWrap g (fun _ => true) [.arr [[u]], .arr [[v, w]]] = some (.arr [[g [.scalar u, .scalar v]]]) ∧
+    cseWrap g (fun _ => true) [.arr [[v, w]], .arr [[x]]] = none := by
+  constructor <;> rfl
+
+/-! ## S3 / S4 — fit to the target -/
+
+/-- **C13 (S3)**: "produces exactly the target's shape" — for every result (scalar or rectangular array with at
+    least one row) and every target h×w, the fitted value is rectangular h×w. -/
+theorem C13_fit_shape (r : Opnd) {rh rw : Nat} (hr : Rect (toArr r) rh rw) (hrh : 0 < rh) (h w : Nat) :
+    Rect (fitToRange r h w) h w :=
+  fitToRange_rect r hr hrh h w
+
+/-- **C13 (S4, element law)**: element (i,j) of the fitted value is the result's element at the broadcast index when
+    that exists — rows are repeated iff the result has ONE row, columns iff it has ONE column — and #N/A otherwise. -/
+theorem C13_fit_elem (r : Opnd) {rh rw : Nat} (hr : Rect (toArr r) rh rw) (hrh : 0 < rh) (hrw : 0 < rw)
+    (h w : Nat) {i j : Nat} (hi : i < h) (hj : j < w) :
+    at2 (fitToRange r h w) i j =
+      if (rh = 1 ∨ i < rh) ∧ (rw = 1 ∨ j < rw) then at2 (toArr r) (bidx rh i) (bidx rw j) else na :=
+  fitToRange_at2 r hr hrh hrw h w hi hj
+
+/-- **C13 (S4, "larger results are trimmed")**: inside both the result and the target the element is the result's
+    own element (whatever lies beyond the target is dropped: see `C13_fit_shape`). -/
+theorem C13_fit_trim (a : Arr) {rh rw : Nat} (hr : Rect a rh rw) (h w : Nat) {i j : Nat}
+    (hi : i < h) (hj : j < w) (hi' : i < rh) (hj' : j < rw) :
+    at2 (fitToRange (.arr a) h w) i j = at2 a i j := by
+  rw [C13_fit_elem (.arr a) hr (by omega) (by omega) h w hi hj]
+  have e1 : bidx rh i = i := by unfold bidx; split <;> omega
+  have e2 : bidx rw j = j := by unfold bidx; split <;> omega
+  simp [hi', hj', e1, e2, toArr]
+
+/-- **C13 (S4, "a scalar ... is repeated")**: a scalar fills every cell of the target. -/
+theorem C13_fit_scalar (v : Val) (h w : Nat) {i j : Nat} (hi : i < h) (hj : j < w) :
+    at2 (fitToRange (.scalar v) h w) i j = v := by
+  rw [C13_fit_elem (.scalar v) (scalar_rect v) (by omega) (by omega) h w hi hj]
+  simp [bidx, at2, toArr]
+
+/-- **C13 (S4, "a ... single row ... is repeated")**: a 1×rw result is repeated down all rows of the target. -/
+theorem C13_fit_single_row (a : Arr) {rw : Nat} (hr : Rect a 1 rw) (h w : Nat) {i j : Nat}
+    (hi : i < h) (hj : j < w) (hj' : j < rw) :
+    at2 (fitToRange (.arr a) h w) i j = at2 a 0 j := by
+  rw [C13_fit_elem (.arr a) hr (by omega) (by omega) h w hi hj]
+  have e2 : bidx rw j = j := by unfold bidx; split <;> omega
+  simp [hj', e2, toArr, show bidx 1 i = 0 from rfl]
+
+/-- **C13 (S4, "a ... single column is repeated")**: an rh×1 result is repeated across all columns. -/
+theorem C13_fit_single_col (a : Arr) {rh : Nat} (hr : Rect a rh 1) (h w : Nat) {i j : Nat}
+    (hi : i < h) (hj : j < w) (hi' : i < rh) :
+    at2 (fitToRange (.arr a) h w) i j = at2 a i 0 := by
+  rw [C13_fit_elem (.arr a) hr (by omega) (by omega) h w hi hj]
+  have e1 : bidx rh i = i := by unfold bidx; split <;> omega
+  simp [hi', e1, toArr, show bidx 1 j = 0 from rfl]
+
+/-- **C13 (S4, "uncovered positions are #N/A")**: a target position beyond a result dimension that is not 1. -/
+theorem C13_fit_uncovered (r : Opnd) {rh rw : Nat} (hr : Rect (toArr r) rh rw) (hrh : 0 < rh) (hrw : 0 < rw)
+    (h w : Nat) {i j : Nat} (hi : i < h) (hj : j < w)
+    (hun : (rh ≠ 1 ∧ rh ≤ i) ∨ (rw ≠ 1 ∧ rw ≤ j)) :
+    at2 (fitToRange r h w) i j = na := by
+  rw [C13_fit_elem r hr hrh hrw h w hi hj]
+  rw [if_neg]
+  omega
+
+/-- Consequence of the element law (used when a top-left anchored part of the target is evaluated as a range of its
+    own, excelwrapper.py:75-95): fitting to a smaller target is the restriction of fitting to the larger one. -/
+theorem C13_fit_subtarget (r : Opnd) {rh rw : Nat} (hr : Rect (toArr r) rh rw) (hrh : 0 < rh) (hrw : 0 < rw)
+    {h w h' w' : Nat} (hh : h' ≤ h) (hw : w' ≤ w) {i j : Nat} (hi : i < h') (hj : j < w') :
+    at2 (fitToRange r h' w') i j = at2 (fitToRange r h w) i j := by
+  rw [C13_fit_elem r hr hrh hrw h' w' hi hj, C13_fit_elem r hr hrh hrw h w (by omega) (by omega)]
+
+/-! ## S5 — members -/
+
+/-- **C13 (S5, addressing)**: load_array_formulas writes `CSE_INDEX(front, i, j, h, w)` into the target cell of row
+    `r0+i-1`, column `c0+j-1` (entry (i-1, j-1) of `expandCse`), and cell_to_formula turns that cell into
+    `index(<range>, i, j)` where `<range>` is exactly the target, whichever member it is. -/
+theorem C13_member_range (r0 c0 h w i j : Nat) (hr : 1 ≤ r0) (hc : 1 ≤ c0) (hi : i < h) (hj : j < w) :
+    ((expandCse h w)[i]?.bind (·[j]?)) = some ⟨i + 1, j + 1, h, w⟩ ∧
+    cseRange (r0 + i) (c0 + j) ⟨i + 1, j + 1, h, w⟩ = ⟨c0, r0, c0 + w - 1, r0 + h - 1⟩ := by
+  refine ⟨expandCse_entry h w i j hi hj, ?_⟩
+  have := cseRange_member r0 c0 h w (i + 1) (j + 1) hr hc (by omega) (by omega)
+  simpa using this
+
+/-- **C13 (S5)**: "each member cell shows its own element" — if evaluating the target range yields `fit(res)` (what
+    `_evaluate_range` computes for the array formula's value `res`), the member cell (i,j) (0-based offsets inside
+    the target at (r0,c0)) shows element (i,j) of evaluate(target).  `showCell` is the rule of every formula cell
+    that an empty value is displayed as 0. -/
+theorem C13_member (res : Opnd) {rh rw : Nat} (hres : Rect (toArr res) rh rw) (hrh : 0 < rh)
+    (evalRange : Box → Arr) (r0 c0 h w : Nat) (hr : 1 ≤ r0) (hc : 1 ≤ c0)
+    (hev : evalRange ⟨c0, r0, c0 + w - 1, r0 + h - 1⟩ = evalTarget res h w)
+    {i j : Nat} (hi : i < h) (hj : j < w) :
+    memberValue evalRange (r0 + i) (c0 + j) ⟨i + 1, j + 1, h, w⟩
+      = showCell (at2 (evalTarget res h w) i j) := by
+  unfold memberValue
+  rw [(C13_member_range r0 c0 h w i j hr hc hi hj).2, hev]
+  show showCell (indexRC (fitToRange res h w) (i + 1) (j + 1)) = showCell (at2 (fitToRange res h w) i j)
+  rw [indexRC_in (C13_fit_shape res hres hrh h w) hi hj]
+
+/-- S5 without the display rule: a member whose element is not empty shows exactly that element. -/
+theorem C13_member_nonblank (res : Opnd) {rh rw : Nat} (hres : Rect (toArr res) rh rw) (hrh : 0 < rh)
+    (evalRange : Box → Arr) (r0 c0 h w : Nat) (hr : 1 ≤ r0) (hc : 1 ≤ c0)
+    (hev : evalRange ⟨c0, r0, c0 + w - 1, r0 + h - 1⟩ = evalTarget res h w)
+    {i j : Nat} (hi : i < h) (hj : j < w) (hnb : at2 (evalTarget res h w) i j ≠ .blank) :
+    memberValue evalRange (r0 + i) (c0 + j) ⟨i + 1, j + 1, h, w⟩ = at2 (evalTarget res h w) i j := by
+  rw [C13_member res hres hrh evalRange r0 c0 h w hr hc hev hi hj]
+  cases hv : at2 (evalTarget res h w) i j <;> simp_all [showCell]
+
+/-- The whole table of members as the model driver computes it (`members`) is the displayed target. -/
+theorem C13_members_table (res : Opnd) {rh rw : Nat} (hres : Rect (toArr res) rh rw) (hrh : 0 < rh)
+    (r0 c0 h w : Nat) (hr : 1 ≤ r0) (hc : 1 ≤ c0) {i j : Nat} (hi : i < h) (hj : j < w) :
+    at2 (members res r0 c0 h w) i j = showCell (at2 (evalTarget res h w) i j) := by
+  have := C13_member res hres hrh
+    (fun b => if b = (⟨c0, r0, c0 + w - 1, r0 + h - 1⟩ : Box) then evalTarget res h w else [])
+    r0 c0 h w hr hc (by simp) hi hj
+  rw [← this]
+  simp [members, expandCse, at2, hi, hj]
+
+/-- **C13 (S3–S5, single-cell target)**: an array formula entered in ONE cell is evaluated as an ordinary cell; it
+    shows element (0,0) of the fitted (= trimmed) value; only an empty SCALAR result is displayed as 0. -/
+theorem C13_single_cell (res : Opnd) {rh rw : Nat} (hres : Rect (toArr res) rh rw) (hrh : 0 < rh) (hrw : 0 < rw) :
+    singleCell res = at2 (fitToRange res 1 1) 0 0 ∨ (res = .scalar .blank ∧ singleCell res = .num 0) := by
+  have e := C13_fit_elem res hres hrh hrw 1 1 (i := 0) (j := 0) (by omega) (by omega)
+  have b1 : bidx rh 0 = 0 := by unfold bidx; split <;> rfl
+  have b2 : bidx rw 0 = 0 := by unfold bidx; split <;> rfl
+  rw [if_pos (by omega), b1, b2] at e
+  cases res with
+  | arr a => left; rw [e]; rfl
+  | scalar v =>
+    cases v with
+    | blank => right; exact ⟨rfl, rfl⟩
+    | _ => left; rw [e]; rfl
+
+/-- The live `cse_params` metadata (Generated/CseMeta.lean, regenerated from /repo on every run) of the functions
+    the correspondence instantiates S2 with: each is lifted over exactly these parameters. -/
+theorem C13_cse_meta :
+    Gen.cseParams "mod" = [0, 1] ∧ Gen.cseParams "if_" = [0, 1, 2] ∧ Gen.cseParams "isnumber" = [0] ∧
+    Gen.cseParams "sign" = [0] ∧ Gen.cseParams "abs_" = [0] ∧ Gen.cseParams "exact" = [0, 1] := by decide
+
+/-! ## Non-vacuity: concrete instances of the hypotheses, evaluated by the model -/
+
+private def n (k : Int) : Val := .num k
+private def addI : Val → Val → Val
+  | .num a, .num b => .num (a + b)
+  | .err e, _ => .err e
+  | _, .err e => .err e
+  | _, _ => .err .value
+
+-- {1,2;3,4} + {10;20}: single-column broadcasting
+example : opFixup addI (.arr [[n 1, n 2], [n 3, n 4]]) (.arr [[n 10], [n 20]])
+    = some (.arr [[n 11, n 12], [n 23, n 24]]) := by decide +kernel
+-- a scalar error operand is lifted like any other scalar (the array's own error wins where there is one)
+example : opFixup addI (.arr [[.err .div0, n 1]]) (.scalar (.err .na)) = some (.arr [[.err .div0, .err .na]]) := by
+  decide +kernel
+-- {1,2;3,4} + {1,2,3} raises
+example : opFixup addI (.arr [[n 1, n 2], [n 3, n 4]]) (.arr [[n 1, n 2, n 3]]) = none := by decide +kernel
+-- hypotheses of C13_pointwise_op are satisfiable with a genuinely broadcasting instance (2×1 against 1×3)
+example : ∃ res, opFixup addI (.arr [[n 1], [n 2]]) (.arr [[n 10, n 20, n 30]]) = some res ∧
+    Rect (toArr res) 2 3 ∧ at2 (toArr res) 1 2 = n 32 := by
+  obtain ⟨res, h1, h2, h3⟩ := C13_pointwise_op addI (.arr [[n 1], [n 2]]) (.arr [[n 10, n 20, n 30]])
+    (hl := 2) (wl := 1) (hr := 1) (wr := 3) (h := 2) (w := 3)
+    (by simp [Rect, toArr]) (by simp [Rect, toArr]) (by omega) (by omega) (by decide) (by decide)
+  exact ⟨res, h1, h2, by rw [h3 1 2 (by omega) (by omega)]; decide +kernel⟩
+-- a lifted function on an array, a scalar and an equally shaped array
+example : cseWrap (fun args => match args with
+      | [.scalar (.num a), .scalar (.num b), .scalar (.num c)] => .num (a * b + c)
+      | _ => .err .value) (fun _ => true)
+    [.arr [[n 1, n 2]], .scalar (n 10), .arr [[n 5, n 6]]] = some (.arr [[n 15, n 26]]) := by decide +kernel
+-- fit: 3×1 result over a 3×2 target is repeated; 2×2 over 3×3 is filled; 2×3 over 1×2 is trimmed
+example : fitToRange (.arr [[n 1], [n 2], [n 3]]) 3 2 = [[n 1, n 1], [n 2, n 2], [n 3, n 3]] := by decide +kernel
+example : fitToRange (.arr [[n 1, n 2], [n 3, n 4]]) 3 3
+    = [[n 1, n 2, na], [n 3, n 4, na], [na, na, na]] := by decide +kernel
+example : fitToRange (.arr [[n 1, n 2, n 3], [n 4, n 5, n 6]]) 1 2 = [[n 1, n 2]] := by decide +kernel
+example : fitToRange (.scalar (n 7)) 2 2 = [[n 7, n 7], [n 7, n 7]] := by decide +kernel
+-- members of a target at D1 (row 1, column 4): blank elements are displayed as 0
+example : members (.arr [[n 1, .blank]]) 1 4 2 3 = [[n 1, n 0, na], [n 1, n 0, na]] := by decide +kernel
+
+end Pycel.Arrays
